@@ -1,7 +1,7 @@
 (* C07 coverage statistic: on a searched program, how many of the model's retired paths lie INSIDE the guards of
    the simulation theorem (props/C07.v C07_path_sim), i.e. are decided by the theorem rather than by the search. *)
 From Coq Require Import String.
-From SLX Require Import Base gen.Constants gen.ValueSig gen.OpcodeTable SymVal Disasm Fold VM SimGuards VmCases.
+From SLX Require Import Base gen.Constants gen.ValueSig gen.OpcodeTable SymVal Disasm Fold Evm VM SimGuards VmCases SimCases.
 Open Scope N_scope.
 
 Definition gfuel (bytes : list byte) : nat := (64 * length bytes + 1000)%nat.
@@ -16,6 +16,29 @@ Definition c07_guard_stats (c : vcase) : N :=
       | RDone m =>
           1000 * N.of_nat (length (filter (fun p => guards_along code (c_cfg c) fuel m0 p) (v_paths m)))
           + N.of_nat (length (v_paths m))
+      | _ => 0
+      end
+  | _ => 0
+  end.
+
+(* C08 coverage statistic: is the searched program INSIDE the hypotheses of the converse theorem
+   (props/C08.v C08_reachable_offsets_executed / C08_code_51_impossible): the model run ends with an empty queue,
+   every iteration satisfies step_guard2 (C07's guards + no lost fork), and the reference exploration completes.
+   1 + (number of offsets in the reference CFG) if so, else 0. *)
+Definition c08_converse_stats (c : vcase) : N :=
+  match try_from (c_code c) with
+  | Ok code =>
+      let bytes := c_code c in
+      let fuel := gfuel bytes in
+      let m0 := init_vm code (c_cfg c) in
+      match run constant_fold fuel m0 with
+      | RDone m =>
+          if (match v_queue m with [] => true | _ => false end) && guards_all bytes code (c_cfg c) fuel m0 then
+            match explore bytes (64 * length bytes + 64)%nat [e_init] [] with
+            | Some r => 1 + N.of_nat (length r)
+            | None => 0
+            end
+          else 0
       | _ => 0
       end
   | _ => 0
